@@ -8,6 +8,14 @@ PROPS = {
              "thorough": {"checks": 40000, "shards": 16, "timeout": 1500}},
         ],
     },
+    "C02": {
+        "level": "exploration",
+        "jobs": [
+            {"test": "TestC02", "variant": "std",
+             "quick": {"checks": 250, "shards": 12, "timeout": 400},
+             "thorough": {"checks": 5000, "shards": 16, "timeout": 1800}},
+        ],
+    },
     "C05": {
         "level": "fault_enumeration",
         "jobs": [
@@ -22,6 +30,14 @@ PROPS = {
             {"test": "TestC10", "variant": "std",
              "quick": {"checks": 1500, "shards": 12, "timeout": 400},
              "thorough": {"checks": 25000, "shards": 16, "timeout": 1800}},
+        ],
+    },
+    "C16": {
+        "level": "exploration",
+        "jobs": [
+            {"test": "TestC16", "variant": "std",
+             "quick": {"checks": 200, "shards": 12, "timeout": 400},
+             "thorough": {"checks": 4000, "shards": 16, "timeout": 1800}},
         ],
     },
     "C19": {
